@@ -125,6 +125,17 @@ class extract_visitor(NodeVisitor):
         self.flow = self.make_flow('join', [body, orelse])
         self.flow.scope.flow = self.flow
 
+    def visit_IfExp(self, node):
+        # type: (ast.IfExp) -> None
+        # 'body if test else orelse': the test comes first, and what it binds
+        # (a walrus) is visible in both arms although they may stand left of it
+        self.visit(node.test)
+        cur = self.flow
+        body = self.visit_in_flow(node.body, self.make_flow('ifexp', [cur]))
+        orelse = self.visit_in_flow(node.orelse, self.make_flow('ifexp-else', [cur]))
+        self.flow = self.make_flow('join', [body, orelse])
+        self.flow.scope.flow = self.flow
+
     def visit_For(self, node):
         # type: (ast.For | ast.AsyncFor) -> None
         self.visit(node.iter)
